@@ -22,7 +22,7 @@ pub fn h(a_mask: N) -> MultiOp {
             let mut idx = (1, 0);
             let mut is_first = true;
 
-            while idx.0 <= a_mask {
+            while idx.0 != 0 && idx.0 <= a_mask {
                 if idx.0 & a_mask != 0 {
                     if is_first {
                         idx.1 = idx.0;
